@@ -156,6 +156,17 @@ func (e *Engine) reflectIntrinsic(fn *ssa.Function, full string, args []Value) (
 			return RVal{typ: v.typ, val: v.val}, true
 		}
 		e.goPanic("reflect: call of reflect.Value.Elem on non-pointer value")
+	case "reflect.Indirect":
+		r := args[0].(RVal)
+		if v, ok := r.load().(PtrVal); ok && r.typ != nil {
+			if _, isPtr := r.typ.Underlying().(*types.Pointer); isPtr {
+				if v.slot == nil {
+					return RVal{}, true
+				}
+				return RVal{typ: r.typ.Underlying().(*types.Pointer).Elem(), slot: v.slot}, true
+			}
+		}
+		return r, true
 	case "(reflect.Value).Type":
 		r := args[0].(RVal)
 		if r.typ == nil {
@@ -285,31 +296,12 @@ func (e *Engine) reflectIntrinsic(fn *ssa.Function, full string, args []Value) (
 		t := argRType(args[0])
 		st := t.Underlying().(*types.Struct)
 		sfType := fn.Signature.Results().At(0).Type().Underlying().(*types.Slice).Elem()
-		sfStruct := sfType.Underlying().(*types.Struct)
 		var elems []Value
 		for i := 0; i < st.NumFields(); i++ {
-			f := st.Field(i)
-			if f.Embedded() {
+			if st.Field(i).Embedded() {
 				unsupported("embedded field in reflect.VisibleFields")
 			}
-			sf := zero(sfType).(*StructVal)
-			for j := 0; j < sfStruct.NumFields(); j++ {
-				switch sfStruct.Field(j).Name() {
-				case "Name":
-					sf.fields[j] = mkStr(f.Name())
-				case "PkgPath":
-					if !f.Exported() {
-						sf.fields[j] = mkStr(f.Pkg().Path())
-					}
-				case "Type":
-					sf.fields[j] = e.rtypeIface(f.Type())
-				case "Tag":
-					sf.fields[j] = mkStr(st.Tag(i))
-				case "Index":
-					sf.fields[j] = mkSlice([]Value{mkInt(int64(i))})
-				}
-			}
-			elems = append(elems, sf)
+			elems = append(elems, e.mkStructField(sfType, st, i))
 		}
 		return mkSlice(elems), true
 	case "(reflect.StructField).IsExported":
@@ -357,6 +349,32 @@ func (e *Engine) reflectIntrinsic(fn *ssa.Function, full string, args []Value) (
 	return nil, false
 }
 
+// mkStructField builds the reflect.StructField describing field i of st.
+func (e *Engine) mkStructField(sfType types.Type, st *types.Struct, i int) *StructVal {
+	sfStruct := sfType.Underlying().(*types.Struct)
+	f := st.Field(i)
+	sf := zero(sfType).(*StructVal)
+	for j := 0; j < sfStruct.NumFields(); j++ {
+		switch sfStruct.Field(j).Name() {
+		case "Name":
+			sf.fields[j] = mkStr(f.Name())
+		case "PkgPath":
+			if !f.Exported() {
+				sf.fields[j] = mkStr(f.Pkg().Path())
+			}
+		case "Type":
+			sf.fields[j] = e.rtypeIface(f.Type())
+		case "Tag":
+			sf.fields[j] = mkStr(st.Tag(i))
+		case "Index":
+			sf.fields[j] = mkSlice([]Value{mkInt(int64(i))})
+		case "Anonymous":
+			sf.fields[j] = mkBool(f.Embedded())
+		}
+	}
+	return sf
+}
+
 // rtypeMethod handles invoke on reflect.Type values.
 func (e *Engine) rtypeMethod(rt RType, name string, args []Value) Value {
 	switch name {
@@ -380,6 +398,16 @@ func (e *Engine) rtypeMethod(rt RType, name string, args []Value) Value {
 		return mkStr(rt.t.String())
 	case "NumField":
 		return mkInt(int64(rt.t.Underlying().(*types.Struct).NumFields()))
+	case "Field":
+		st, ok := rt.t.Underlying().(*types.Struct)
+		if !ok {
+			e.goPanic("reflect: Field of non-struct type " + rt.t.String())
+		}
+		i := e.concretize(args[0].(*Term), 0, st.NumFields())
+		if i < 0 || i >= st.NumFields() {
+			e.goPanic("reflect: Field index out of bounds")
+		}
+		return e.mkStructField(e.libNamed("reflect", "StructField"), st, i)
 	}
 	unsupported("reflect.Type.%s", name)
 	return nil
